@@ -30,7 +30,10 @@ MANIFEST = {
             "asker's registry entry; a reference cached before an outage delivers again (repaired code). On every run: schedules of the instrumented "
             "current source are replayed step by step against the gate machine, and two REAL nodes (prc.Shared and vivid.ActorSystem) exchange "
             "sequence-numbered protobuf payloads over loopback gRPC — concurrent senders both ways, bursts of 1..3000 (1023/1024/1025/2049), asks and "
-            "futures, Close()/Share() cycles — with monitors for loss, duplication, reordering, content, sender identity, replies and post-outage delivery.",
+            "futures, Close()/Share() cycles, a family 'payload sizes' (a few messages in the middle of a burst carry 100-900 KiB or 1.1-3 MiB, below "
+            "gRPC's 4 MiB frame limit) and a family 'close with a long queue' (20000-60000 prepared messages of one flow handed over in one go, the "
+            "sending node closes at once, 1-3 rounds: what arrives must be in order and once) — with monitors for loss, duplication, reordering, "
+            "content, sender identity, replies and post-outage delivery.",
     "note": "Needs fixes/C11-stale-stream-reference.patch and fixes/C11-close-hang.patch (without them: VIOLATION link:reopen:stale-reference / "
             "link:close:hang). Open findings (checks/c11_findings.json): several live streams between two nodes (racing dials, or a re-dial while the "
             "old stream's tail is still delivered) reorder one flow — C11_order_across_parallel_streams_refuted; Close() can block sending Farewell. "
